@@ -50,6 +50,11 @@ class Obligation:
     nontrivial: bool = False  # needed a path / flow / table query
 
 
+class Undischarged(Exception):
+    """A rule could not find the construct it anchors on: recorded as a finding (the clause can no longer be established),
+    the rest of that rule is skipped, the other rules of the property still run."""
+
+
 class Ctx:
     """Collects the obligations and findings of one property run."""
 
@@ -67,6 +72,8 @@ class Ctx:
         self.functions_analysed: set[str] = set()
         self.call_sites = 0
         self._cfgs: dict[str, object] = {}
+        self._last_fi = None
+        self._cur_rule: str | None = None
 
     # -- obligations -----------------------------------------------------
     def ok(self, rule: str, where: str, what: str, nontrivial: bool = True) -> None:
@@ -96,18 +103,52 @@ class Ctx:
         return f
 
     def floor(self, rule: str, got: int, minimum: int, what: str = "") -> None:
-        """Instance floor confirmed by hand on the pinned tree: fewer instances
-        than that means the rule matches (nearly) nothing -> broken analysis."""
+        """Instance floor confirmed by hand on the reference tree.  Fewer instances than that means a site the rule is about
+        was removed or changed beyond recognition: the clause is no longer established for it -> a finding (never a
+        silent, vacuous pass).  Zero instances of everything (got == 0 and nothing analysed) is an analysis error."""
         self.floors[rule] = (got, minimum)
         if got < minimum:
-            raise AnalysisError(
-                f"{self.prop} {rule}: only {got} instance(s) of '{what}' found, "
-                f"expected at least {minimum}; anchor vanished or rule blind"
+            fi = self._last_fi
+            mod, fn = (fi.module, fi.qual) if fi is not None else ("?", "?")
+            base = rule.rstrip("abcdefghijklmnopqrstuvwxyz")
+            self.bad(
+                base, mod, fn, f"only {got} of {minimum} known instances: {what}",
+                f"only {got} instance(s) of '{what}' found where at least {minimum} are known on the reference tree: a site this rule "
+                "is about was removed or changed beyond recognition, so the clause is not established for it",
+                fi.node.lineno if fi is not None else 0,
             )
+            raise Undischarged(f"{rule}: floor {got} < {minimum} ({what})")
 
-    def require(self, cond, msg: str) -> None:
-        if not cond:
+    def require(self, cond, msg: str, anchor: bool = False) -> None:
+        """A construct a rule needs.  anchor=True: pure scaffolding (a parameter, an enum, an internal node) - its absence
+        means the analysis cannot run (ANALYSIS-ERROR, exit 2).  Otherwise the construct is what carries the property (the
+        call, the guard, the statement the clause is about): if it is gone the clause is not established -> a finding."""
+        if cond:
+            return
+        if anchor:
             raise AnalysisError(f"{self.prop}: {msg}")
+        fi = self._last_fi
+        mod, fn = (fi.module, fi.qual) if fi is not None else ("?", "?")
+        self.bad(
+            self._cur_rule or "R?", mod, fn, f"missing: {msg}",
+            f"{msg}: the construct this clause rests on is no longer there, so the clause cannot be established "
+            "(if the code was only reshaped, the rule's table of accepted shapes needs the new one)",
+            fi.node.lineno if fi is not None else 0,
+        )
+        raise Undischarged(msg)
+
+    def do(self, fn, *args, **kw):
+        """Run one rule; an undischarged anchor ends that rule only."""
+        prev = self._cur_rule
+        nm = getattr(fn, "__name__", "")
+        m = __import__("re").match(r"r(\d+)_(\d+)", nm)
+        self._cur_rule = f"R{m.group(1)}.{m.group(2)}" if m else prev
+        try:
+            return fn(self, *args, **kw)
+        except Undischarged:
+            return None
+        finally:
+            self._cur_rule = prev
 
     def trust(self, s: str) -> None:
         if s not in self.trusted:
@@ -123,10 +164,12 @@ class Ctx:
         if k not in self._cfgs:
             self._cfgs[k] = build_cfg(fi.node, k)
         self.functions_analysed.add(k)
+        self._last_fi = fi
         return self._cfgs[k]
 
     def analysed(self, fi) -> None:
         self.functions_analysed.add(fi.key)
+        self._last_fi = fi
 
 
 # ----------------------------------------------------------------------------
